@@ -83,6 +83,7 @@ def filterLine (univ : List Obj) (e : SExp) : String :=
         else "ok"
     | _, _, _, _, _, _ => "bad eq line"
   | .list (.atom "impure" :: _) => "reject impure: Accept gave different answers for the same object"
+  | .list (.atom "unstable-equals" :: _) => "reject refl: Equals answered differently after the filters had been used (Accept), or against a fresh build of the same arguments"
   | .list (.atom "inconsistent-equals" :: _) => "reject equals: FiltersEqual and Equals disagree"
   | .list [.atom "nil-equals-wrong"] => "reject nil: FiltersEqual mishandles nil"
   | _ => "bad line"
